@@ -101,6 +101,8 @@ def drive(ctx, rng, cfg, nops, always_consistent=False, opmix=None, keep_refused
         sh.opmix = opmix
     attempts = 0
     start = len(s.ops)
+    if shadow is None:
+        nops += sh.extra            # scripted prefix of the history family (gen.Shadow)
     while len(s.ops) - start < nops and attempts < nops * 4:
         attempts += 1
         g = sh.gen_op()
